@@ -47,6 +47,8 @@ def run (j : Json) : Except String Json := do
     match inst' with
     | .ok x =>
       let s := serialize O cls x
+      -- is the instance inside the fragment on which the round trip is PROVED (class_round_trip_partial)?
+      out := out ++ [("inFrag", Json.bool (inFrag O cls x))]
       out := out ++ [("ser", resToJson s)]
       match s with
       | .ok d =>
@@ -56,7 +58,7 @@ def run (j : Json) : Except String Json := do
   if let some dj := optField j "doc" then
     let d ← valOfJson dj
     let liftOk := match cls with | .struct _ fields _ => liftableFields fields | _ => false
-    out := out ++ [("liftable", Json.bool liftOk),
+    out := out ++ [("exactDecl", Json.bool (exactDecl cls && strictJson d)), ("liftable", Json.bool liftOk),
                    ("expected", match expectedDeser O opts cls d with
                       | some x => Json.mkObj [("ok", valToJson x)]
                       | none => Json.mkObj [("reject", Json.bool true)])]
